@@ -228,7 +228,7 @@ func cmdCheck(o opts, prop, tier string) int {
 	var engineErrs []string
 	var names []string
 	for n, c := range e.db.Contracts {
-		if !c.Assumed {
+		if !c.Assumed || c.Flags["partial"] {
 			names = append(names, n)
 		}
 	}
